@@ -98,6 +98,21 @@ fn check_located(r: &tera::ReportError, src: &str, fname: &str, fault_off: usize
     }
 }
 
+/// A call site (include tag or component call) put inside a construct that captures or repeats its output: the
+/// error raised below it must name the call site all the same.
+fn wrap_call(rng: &mut Rng, call: &str) -> String {
+    let nl = if rng.bool() { "\n  " } else { "" };
+    match rng.below(8) {
+        0 | 1 => call.to_string(),
+        2 => format!("{{% filter upper %}}{nl}{call}{{% endfilter %}}"),
+        3 => format!("{{% set cap %}}{nl}{call}{{% endset %}}{{{{ cap }}}}"),
+        4 => format!("{{% for q in [1] %}}{nl}{call}{{% endfor %}}"),
+        5 => format!("{{% if true %}}{nl}{call}{{% endif %}}"),
+        6 => format!("{{% <wrapc> %}}{nl}{call}{{% </wrapc> %}}"),
+        _ => format!("{{% filter upper %}}{{% set cap %}}{nl}{call}{{% endset %}}é{{{{ cap }}}}{{% endfilter %}}"),
+    }
+}
+
 pub fn run(cx: &mut Cx) {
     let total = cx.total(200_000, 5_000_000);
     for case in cx.my_cases(total) {
@@ -135,7 +150,7 @@ pub fn run(cx: &mut Cx) {
         let post = if class == "eoi" { String::new() } else { filler(&mut rng) };
         let faulty_body = format!("{pre}{fault}{post}");
         let fault_off = pre.len();
-        let typed = "{% component typed(n: integer) %}{{ n }}{% endcomponent %}";
+        let typed = "{% component typed(n: integer) %}{{ n }}{% endcomponent %}{% component wrapc() %}[{{ body }}]{% endcomponent %}";
         let (mut tpls, entry, faulty_name, off): (Vec<(String, String)>, &str, &str, usize) = match placement {
             0 => (vec![("entry.html".into(), faulty_body.clone())], "entry.html", "entry.html", fault_off),
             1 => {
@@ -146,19 +161,19 @@ pub fn run(cx: &mut Cx) {
                 let head = "{% extends \"parent.html\" %}\n{% block a %}{{ super() }}".to_string();
                 (vec![("parent.html".into(), "P{% block a %}pa{% endblock %}".into()), ("entry.html".into(), format!("{head}{faulty_body}{{% endblock %}}"))], "entry.html", "entry.html", head.len() + fault_off)
             }
-            3 => (vec![("inc.html".into(), faulty_body.clone()), ("entry.html".into(), format!("{}{{% include \"inc.html\" %}}", filler(&mut rng)))], "entry.html", "inc.html", fault_off),
+            3 => (vec![("inc.html".into(), faulty_body.clone()), ("entry.html".into(), format!("{}{}", filler(&mut rng), wrap_call(&mut rng, "{% include \"inc.html\" %}")))], "entry.html", "inc.html", fault_off),
             4 => {
                 let head = "{% component faulty(good, zero) %}".to_string();
-                (vec![("lib.html".into(), format!("{head}{faulty_body}{{% endcomponent %}}")), ("entry.html".into(), format!("{}{{{{ <faulty good={{good}} zero={{zero}} /> }}}}", filler(&mut rng)))], "entry.html", "lib.html", head.len() + fault_off)
+                (vec![("lib.html".into(), format!("{head}{faulty_body}{{% endcomponent %}}")), ("entry.html".into(), format!("{}{}", filler(&mut rng), wrap_call(&mut rng, "{{ <faulty good={good} zero={zero} /> }}")))], "entry.html", "lib.html", head.len() + fault_off)
             }
-            5 => (vec![("inc2.html".into(), faulty_body.clone()), ("inc.html".into(), format!("{}{{% include \"inc2.html\" %}}", filler(&mut rng))), ("entry.html".into(), "é\n{% include \"inc.html\" %}".to_string())], "entry.html", "inc2.html", fault_off),
+            5 => (vec![("inc2.html".into(), faulty_body.clone()), ("inc.html".into(), format!("{}{}", filler(&mut rng), wrap_call(&mut rng, "{% include \"inc2.html\" %}"))), ("entry.html".into(), format!("é\n{}", wrap_call(&mut rng, "{% include \"inc.html\" %}")))], "entry.html", "inc2.html", fault_off),
             _ => {
                 let head = "{% component faulty(good, zero) %}".to_string();
                 (
                     vec![
                         ("lib.html".into(), format!("{head}{faulty_body}{{% endcomponent %}}")),
-                        ("inc.html".into(), format!("{}{{{{ <faulty good={{good}} zero={{zero}} /> }}}}", filler(&mut rng))),
-                        ("entry.html".into(), format!("{}{{% include \"inc.html\" %}}", filler(&mut rng))),
+                        ("inc.html".into(), format!("{}{}", filler(&mut rng), wrap_call(&mut rng, "{{ <faulty good={good} zero={zero} /> }}"))),
+                        ("entry.html".into(), format!("{}{}", filler(&mut rng), wrap_call(&mut rng, "{% include \"inc.html\" %}"))),
                     ],
                     "entry.html",
                     "lib.html",
@@ -241,6 +256,26 @@ pub fn run(cx: &mut Cx) {
                                         let line = after.lines().next().unwrap_or("");
                                         if !line.contains(c) {
                                             why.push(format!("call-site-note-wrong-template: `{line}` should name {c}"));
+                                        } else if let Some((_, csrc)) = tpls.iter().find(|(n, _)| n == c) {
+                                            // the note's line:column must designate a position inside the call construct
+                                            cx.count("call_site_positions_checked", 1);
+                                            let (from, to) = match csrc.find("{% include").or_else(|| csrc.find("{{ <faulty")) {
+                                                Some(a) => (a, a + csrc[a..].find(if csrc[a..].starts_with("{%") { "%}" } else { "}}" }).map(|x| x + 2).unwrap_or(csrc.len() - a)),
+                                                None => (0, csrc.len()),
+                                            };
+                                            let mut nums = line.rsplit(':').take(2).map(|x| x.trim().parse::<usize>());
+                                            match (nums.next(), nums.next()) {
+                                                (Some(Ok(col)), Some(Ok(ln))) if ln >= 1 && col >= 1 => {
+                                                    let lstart: usize = csrc.split_inclusive('\n').take(ln - 1).map(|l| l.len()).sum();
+                                                    let lsrc = csrc[lstart.min(csrc.len())..].split('\n').next().unwrap_or("");
+                                                    let boff = lsrc.char_indices().nth(col - 1).map(|(b, _)| b).unwrap_or(lsrc.len());
+                                                    let at = lstart + boff;
+                                                    if ln > csrc.split('\n').count() || at < from || at > to {
+                                                        why.push(format!("call-site-note-wrong-position: `{line}` designates byte {at} of {c}, the call construct spans {from}..{to}"));
+                                                    }
+                                                }
+                                                _ => why.push(format!("call-site-note-unparsable: `{line}`")),
+                                            }
                                         }
                                         rest = &after[17..];
                                     }
